@@ -82,6 +82,7 @@ func c07(ctx *Ctx) {
 			minCapSince := map[string]int{} // per handshake: min capacity in effect since last presentation
 			addsSince := map[string]int{}
 			refused, rot := 0, 0
+			cksSeen := map[[4]byte]bool{}
 			for i := 0; i < n; i++ {
 				if r.Chance(4) {
 					nc := caps[r.Intn(len(caps))]
@@ -114,10 +115,25 @@ func c07(ctx *Ctx) {
 				obs = append(obs, ok)
 				ctx.Count("op:add")
 				key := h.id + "\x00" + string(h.salt)
+				// the documented 32-bit checksum: key ID and salt folded by XOR into four bytes
+				var ck [4]byte
+				for j := 0; j < len(h.id); j++ {
+					ck[j&3] ^= h.id[j]
+				}
+				for j, v := range h.salt {
+					ck[j&3] ^= v
+				}
 				if !ok {
 					refused++
 					ctx.Count("out:refused")
+					// monitor: a handshake is refused only if it, or one with the same checksum, was added before
+					if !cksSeen[ck] {
+						ctx.Monitor("C07/never-seen-handshake-refused",
+							fmt.Sprintf("Add(%q, %d-byte salt) was refused although no handshake with its checksum was ever added to this cache", h.id, len(h.salt)),
+							map[string]interface{}{"cap": capacity, "ops": ops})
+					}
 				}
+				cksSeen[ck] = true
 				// monitor: replay within window must be refused
 				if mc, seen := minCapSince[key]; seen && mc >= 1 && addsSince[key] <= mc && ok {
 					ctx.Monitor("C07/replay-accepted-within-window",
